@@ -106,6 +106,22 @@ def observe(scn: dict) -> dict:
             rec["bad"] = bad
             return rec
         rec["closure_ok"] = True
+        # the same closure after a parameter update on the simulator (spec: the model with p := 5)
+        has_ia = bool(sh["ia_parameter"]) or any(v["k"] == "ia" for v in c["init"].values())
+        if not has_ia and "pts_alt" in scn:
+            alt = fn_to_dict(scn["pts_alt"])["2"]
+            ya = [float(fn_to_dict(alt["y"])[v]) for v in c["vars"]]
+            try:
+                sim.update_parameter("p", 5.0)
+                jv = np.atleast_2d(np.array(sim.integrator.jacobian(float(alt["t"]), ya), dtype=float)).tolist()
+            except Exception as e:  # noqa: BLE001
+                rec["bad"] = {"what": "Jacobian closure raised after update_parameter", "exception": f"{type(e).__name__}: {str(e)[:120]}"}
+                return rec
+            bad = _matrix_bad(alt["jac"], jv, "Jacobian closure after update_parameter('p', 5)")
+            if bad:
+                rec["bad"] = bad
+                return rec
+            rec["closure_after_update_ok"] = True
     # (c) short trajectories with / without the Jacobian (only when a Jacobian is in use)
     if jf is not None and scn["idx"] % 4 == 0:
         tp = [0.002, 0.004, 0.006, 0.008, 0.01]
@@ -170,11 +186,11 @@ def run(ctx: Ctx) -> int:
     n = 16 if ctx.quick else 300
     parts = [
         dict(maxv=3, maxd=3, maxr=3, maxia=0, maxiv=1, maxc=4, fns=cg.TRANSLATABLE, fwd=True, num=n, jac=True),
-        dict(maxv=2, maxd=2, maxr=2, maxia=1, maxiv=0, maxc=4, fns=cg.TRANSLATABLE, fwd=True, num=n, jac=True),
+        dict(maxv=2, maxd=2, maxr=2, maxia=1, maxiv=0, maxc=4, fns=cg.TRANSLATABLE + cg.OPTIONAL, fwd=True, num=n, jac=True),
     ]
     scns = cg.generate(ctx, rep, parts)
     recs = pmap(_safe, scns, chunk=4)
-    n_sym = n_clo = n_traj = n_raise = 0
+    n_sym = n_clo = n_traj = n_raise = n_upd = 0
     for scn, rec in zip(scns, recs):
         if "harness_error" in rec:
             raise MachineryError(f"harness error: {rec['harness_error']}\n{rec['trace']}")
@@ -182,10 +198,11 @@ def run(ctx: Ctx) -> int:
         rep.replayed += 1
         if any(x != 0 for p in scn["pts"] for row in p["jac"] for x in row):
             rep.distinct.add(json.dumps(scn["c"], sort_keys=True))
-        base = {"c": scn["c"], "idx": scn["idx"], "seed": scn["seed"], "pts": scn["pts"]}
+        base = {"c": scn["c"], "idx": scn["idx"], "seed": scn["seed"], "pts": scn["pts"], "pts_alt": scn.get("pts_alt")}
         n_sym += bool(rec.get("symbolic_ok"))
         n_clo += bool(rec.get("closure_ok"))
         n_traj += bool(rec.get("trajectories_ok"))
+        n_upd += bool(rec.get("closure_after_update_ok"))
         if "bad" in rec:
             rep.mismatch(base, {**rec["bad"], "shape": rec["shape"]}, classify(rec))
         elif "convert_raised" in rec:
@@ -195,7 +212,8 @@ def run(ctx: Ctx) -> int:
                                     "exception": rec["convert_raised"], "shape": rec["shape"], "order": rec["order"]},
                              "derived-declared-early" if rec["shape"]["derived_declared_early"] else None)
     rep.notes.update({"symbolic_models_conforming": n_sym, "integrator_closures_conforming": n_clo,
-                      "models_with_conforming_trajectories": n_traj, "conversion_raised": n_raise})
+                      "models_with_conforming_trajectories": n_traj,
+                      "integrator_closures_conforming_after_parameter_update": n_upd, "conversion_raised": n_raise})
     if n_sym < 30 or n_clo < 30:
         raise MachineryError(f"vacuity: symbolic {n_sym}, closures {n_clo}")
     for s in scns[:2]:
